@@ -280,6 +280,146 @@ theorem cool2D_balance_partial (Nz Nr : Nat) (hNz : 2 ≤ Nz) (a dz dr : ℝ) (r
     ring
   rw [Finset.sum_congr rfl h, Finset.sum_add_distrib, sum_col1D_sub Nz hNz, ← Finset.mul_sum]
 
+/-! ### 2D cooling stage: the r-weighted (volume) sum -/
+
+/-- `Σ_{k≤m} (f(k+1) + f k) = f(m+1) + f 0 + 2 Σ_{k<m} f(k+1)` -/
+theorem sum_pairs (f : Nat → ℝ) (m : Nat) :
+    ∑ k ∈ Finset.range (m + 1), (f (k + 1) + f k)
+      = f (m + 1) + f 0 + 2 * ∑ k ∈ Finset.range m, f (k + 1) := by
+  induction m with
+  | zero => simp
+  | succ m ih =>
+    rw [Finset.sum_range_succ, ih, Finset.sum_range_succ (fun k => f (k + 1))]
+    ring
+
+/-- one row of the radial operator, weighted with `r_j` (cylindrical volume element): with
+`y_k` the row extended by the wall ghost value (`y_{m+2} = T_edge`), for the `m+2` nodes
+`j = 0 … m+1` of the row (`r_0 = 0`)
+`dr²·Σ_j r_j·rad_j = (r_{m+1} + dr/2)(y_{m+2} − y_{m+1}) − (r_1 − dr/2)(y_1 − y_0)
+                      − Σ_{k<m} (r_{k+2} − r_{k+1} − dr)(y_{k+2} − y_{k+1})`:
+the wall flux, a centre-line term, and a remainder that vanishes exactly when the radial node
+spacing equals `dr` (in the code `r = linspace(0,R,Nr)` has spacing `R/(Nr−1) ≠ dr = R/Nr`). -/
+theorem radial_row_sum (m : Nat) (dr : ℝ) (r y : Nat → ℝ) (hdr : dr ≠ 0)
+    (hr : ∀ k, k < m + 1 → r (k + 1) ≠ 0) :
+    ∑ k ∈ Finset.range (m + 1),
+        r (k + 1) * ((1 / r (k + 1) * (y (k + 2) - y k)) / (2 * dr)
+          + ((y (k + 2) - 2 * y (k + 1)) + y k) / (dr * dr))
+      = (1 / (dr * dr)) * ((r (m + 1) + dr / 2) * (y (m + 2) - y (m + 1)) - (r 1 - dr / 2) * (y 1 - y 0)
+          - ∑ k ∈ Finset.range m, (r (k + 2) - r (k + 1) - dr) * (y (k + 2) - y (k + 1))) := by
+  have hterm : ∀ k ∈ Finset.range (m + 1),
+      r (k + 1) * ((1 / r (k + 1) * (y (k + 2) - y k)) / (2 * dr)
+          + ((y (k + 2) - 2 * y (k + 1)) + y k) / (dr * dr))
+        = (1 / (2 * dr)) * ((y (k + 1 + 1) - y (k + 1)) + (y (k + 1) - y k))
+          + (1 / (dr * dr)) * (r (k + 1) * ((y (k + 1 + 1) - y (k + 1)) - (y (k + 1) - y k))) := by
+    intro k hk
+    have := hr k (Finset.mem_range.mp hk)
+    field_simp
+    ring
+  rw [Finset.sum_congr rfl hterm, Finset.sum_add_distrib, ← Finset.mul_sum, ← Finset.mul_sum,
+    sum_pairs (fun k => y (k + 1) - y k) m,
+    sum_by_parts (fun k => r (k + 1)) (fun k => y (k + 1) - y k) m]
+  have hsplit : ∑ k ∈ Finset.range m, (r (k + 2) - r (k + 1) - dr) * (y (k + 2) - y (k + 1))
+      = ∑ k ∈ Finset.range m, (r (k + 1 + 1) - r (k + 1)) * (y (k + 1 + 1) - y (k + 1))
+        - dr * ∑ k ∈ Finset.range m, (y (k + 1 + 1) - y (k + 1)) := by
+    rw [Finset.mul_sum, ← Finset.sum_sub_distrib]
+    apply Finset.sum_congr rfl
+    intro k _
+    ring
+  rw [hsplit]
+  simp only [Nat.zero_add]
+  generalize (∑ k ∈ Finset.range m, (r (k + 1 + 1) - r (k + 1)) * (y (k + 1 + 1) - y (k + 1))) = S1
+  generalize (∑ k ∈ Finset.range m, (y (k + 1 + 1) - y (k + 1))) = S2
+  field_simp
+  ring
+
+/-- the row `i` extended by the wall ghost value -/
+noncomputable def rowExt (Nr : Nat) (T : Nat → Nat → ℝ) (Te : Nat → ℝ) (i k : Nat) : ℝ :=
+  if k = Nr then Te i else T i k
+
+/-- **`cool2D_conservation` (partial: explicit remainder, not bounded)** — repaired 2D cooling
+step on an `Nz × (m+2)` grid with `r_0 = 0`: the `r`-weighted (cylindrical volume) sum of the
+nodal changes equals the `r`-weighted shelf/top ghost increments (axial direction, exact
+telescoping), plus per row the wall term `(r_{Nr−1} + dr/2)(T_edge − T_{Nr−1})`, a centre-line
+term `−(r_1 − dr/2)(T_1 − T_0)` and the remainder `−Σ (r_{k+2} − r_{k+1} − dr)(T_{k+2} − T_{k+1})`
+caused by `dr = R/Nr` being different from the node spacing `R/(Nr−1)`.  No exact discrete
+conservation law; none of the remainder terms is bounded here. -/
+theorem cool2D_conservation_partial (Nz m : Nat) (hNz : 2 ≤ Nz) (a dz dr : ℝ) (r : Nat → ℝ)
+    (T : Nat → Nat → ℝ) (Tb Tt Te : Nat → ℝ) (hdr : dr ≠ 0) (hr0 : r 0 = 0)
+    (hr : ∀ k, k < m + 1 → r (k + 1) ≠ 0) :
+    ∑ j ∈ Finset.range (m + 2), r j *
+        ∑ i ∈ Finset.range Nz, (coolNode Nz (m + 2) a dz dr r T Tb Tt Te i j - T i j)
+      = (a / (dz * dz)) * ∑ j ∈ Finset.range (m + 2), r j * ((Tb j - T 0 j) + (Tt j - T (Nz - 1) j))
+        + (a / (dr * dr)) * ∑ i ∈ Finset.range Nz,
+            ((r (m + 1) + dr / 2) * (Te i - T i (m + 1)) - (r 1 - dr / 2) * (T i 1 - T i 0)
+              - ∑ k ∈ Finset.range m, (r (k + 2) - r (k + 1) - dr) * (T i (k + 2) - T i (k + 1))) := by
+  -- per column: axial telescoping + radial terms
+  have hcol : ∀ j ∈ Finset.range (m + 2),
+      r j * ∑ i ∈ Finset.range Nz, (coolNode Nz (m + 2) a dz dr r T Tb Tt Te i j - T i j)
+        = (a / (dz * dz)) * (r j * ((Tb j - T 0 j) + (Tt j - T (Nz - 1) j)))
+          + a * ∑ i ∈ Finset.range Nz, r j * radTerm (m + 2) dr r T Te i j := by
+    intro j _
+    rw [cool2D_balance_partial Nz (m + 2) hNz a dz dr r T Tb Tt Te j, Finset.mul_sum, Finset.mul_sum,
+      mul_add, Finset.mul_sum]
+    congr 1
+    · ring
+    · apply Finset.sum_congr rfl; intro x _; ring
+  rw [Finset.sum_congr rfl hcol, Finset.sum_add_distrib, ← Finset.mul_sum, ← Finset.mul_sum,
+    Finset.sum_comm]
+  congr 1
+  -- per row: the r-weighted radial operator
+  have hrow : ∀ i ∈ Finset.range Nz,
+      ∑ j ∈ Finset.range (m + 2), r j * radTerm (m + 2) dr r T Te i j
+        = (1 / (dr * dr)) * ((r (m + 1) + dr / 2) * (Te i - T i (m + 1)) - (r 1 - dr / 2) * (T i 1 - T i 0)
+            - ∑ k ∈ Finset.range m, (r (k + 2) - r (k + 1) - dr) * (T i (k + 2) - T i (k + 1))) := by
+    intro i _
+    rw [show m + 2 = (m + 1) + 1 from rfl, Finset.sum_range_succ', hr0, zero_mul, add_zero]
+    have hy : ∀ k, k < m + 2 → rowExt (m + 2) T Te i k = T i k := by
+      intro k hk; have : ¬ k = m + 2 := by omega
+      simp [rowExt, this]
+    have hyN : rowExt (m + 2) T Te i (m + 2) = Te i := by simp [rowExt]
+    have hterm : ∀ k ∈ Finset.range (m + 1),
+        r (k + 1) * radTerm (m + 1 + 1) dr r T Te i (k + 1)
+          = r (k + 1) * ((1 / r (k + 1) * (rowExt (m + 2) T Te i (k + 2) - rowExt (m + 2) T Te i k)) / (2 * dr)
+              + ((rowExt (m + 2) T Te i (k + 2) - 2 * rowExt (m + 2) T Te i (k + 1)) + rowExt (m + 2) T Te i k)
+                / (dr * dr)) := by
+      intro k hk
+      have hk' := Finset.mem_range.mp hk
+      have ho : outer (m + 1 + 1) T Te i (k + 1) = rowExt (m + 2) T Te i (k + 2) := by
+        unfold outer rowExt
+        by_cases h : k + 1 + 1 = m + 1 + 1
+        · have : k + 2 = m + 2 := by omega
+          simp [this]
+        · have : ¬ k + 2 = m + 2 := by omega
+          simp [h]
+      have hn : inner T i (k + 1) = rowExt (m + 2) T Te i k := by
+        rw [hy k (by omega)]; simp [inner]
+      unfold radTerm
+      simp only [ho, hn, hy (k + 1) (by omega), Nat.succ_ne_zero, if_false]
+    rw [Finset.sum_congr rfl hterm,
+      radial_row_sum m dr r (rowExt (m + 2) T Te i) hdr hr]
+    have hsum : ∑ k ∈ Finset.range m, (r (k + 2) - r (k + 1) - dr)
+          * (rowExt (m + 2) T Te i (k + 2) - rowExt (m + 2) T Te i (k + 1))
+        = ∑ k ∈ Finset.range m, (r (k + 2) - r (k + 1) - dr) * (T i (k + 2) - T i (k + 1)) := by
+      apply Finset.sum_congr rfl
+      intro k hk
+      have hk' := Finset.mem_range.mp hk
+      rw [hy (k + 2) (by omega), hy (k + 1) (by omega)]
+    rw [hsum, hyN, hy (m + 1) (by omega), hy 1 (by omega), hy 0 (by omega)]
+  rw [Finset.sum_congr rfl hrow, ← Finset.mul_sum]
+  ring
+
+/-! ### 1D solidification stage: identity with explicit remainder (partial) -/
+
+/-- **`solid1D_balance` (partial: the remainder is not bounded)** — see
+`Stencil1D.solid1D_balance`: for the 1D solidification stencil, any `Nz ≥ 2`, any fields,
+`ρ·dz·Σ_j c_p,j·BETA_j·(T'_j − T_j) = dt·(q_shelf + q_e) + (dt/dz)·R` with the explicit
+non-conservative remainder `R`. -/
+alias solid1D_balance_partial := Stencil1D.solid1D_balance
+
+/-- the stencil of `solid1D_balance_partial` is the temperature update of the executable
+1D model (`Snow.solidStep1D`), node by node -/
+alias solid1D_is_model := Stencil1D.solidStep1D_eq_solid1D
+
 /-! ### non-vacuity -/
 
 /-- the hypotheses of `nucleation_adiabatic` hold for the default 5 % sucrose solution
